@@ -835,7 +835,7 @@ def enum_honest(tier, seed):
                             c = base_cfg(proto, l, kca, kcb, n, ks=(n % 3))
                             c["ha"], c["hb"] = ha, hb
                             c["ts"] = "%s/%d" % (seed, n)
-                            c["tape"] = tapes[(n + rep) % len(tapes)] if (q and (ha + hb) % 2) or (not q and rep) else "py"
+                            c["tape"] = tapes[n % len(tapes)] if q and (ha + hb) % 2 else tapes[rep] if not q else "py"
                             if ha == 0 and hb == 0 and rep == 0:
                                 c["hnull_len"] = 7        # null pointer with a non-zero length field: still "null"
                             c["pwd"] = [b"8086", b"", b"p", bytes(range(64))][(ha + 2 * hb + rep) % 4].hex()
